@@ -154,12 +154,13 @@ func loadKnown() KnownFindings {
 }
 
 type PropConfig struct {
-	Level      string   `json:"level"`
-	Lemmas     []string `json:"lemmas"`
-	ExtraFuncs []string `json:"extra_funcs"`
-	NotDecided []string `json:"clauses_not_decided"`
-	Bounded    []string `json:"bounded_clauses"`
-	Note       string   `json:"note"`
+	Level      string       `json:"level"`
+	Lemmas     []string     `json:"lemmas"`
+	ExtraFuncs []string     `json:"extra_funcs"`
+	Standins   []StandinCfg `json:"standins"`
+	NotDecided []string     `json:"clauses_not_decided"`
+	Bounded    []string     `json:"bounded_clauses"`
+	Note       string       `json:"note"`
 }
 
 func loadProps() map[string]PropConfig {
@@ -213,6 +214,8 @@ func (e *Engine) contractCallees(fn *ssa.Function) []string {
 	}
 	return out
 }
+
+var evStandins []StandinResult
 
 func cmdCheck(args []string) int {
 	fs := flag.NewFlagSet("check", flag.ExitOnError)
@@ -333,11 +336,33 @@ func cmdCheck(args []string) int {
 			jobs = append(jobs, job{fr.VC, o, i})
 		}
 	}
+	// bounded stand-ins (real code, stated bound): reported separately, never counted as proved
+	var standins []StandinResult
+	standinViol := 0
+	for _, sc := range pc.Standins {
+		r := runStandin(sc, *tier)
+		standins = append(standins, r)
+		if r.Error != "" {
+			undecided = append(undecided, "stand-in "+sc.Name+": "+r.Error)
+		}
+		if r.Violations > 0 {
+			standinViol++
+			path := writeStandinReplay(P, sc, r)
+			fmt.Printf("VIOLATION property=%s replay=%s\n", P, path)
+			for _, l := range r.Lines {
+				fmt.Println("  " + l)
+			}
+		}
+	}
+	evStandins = standins
 	if len(undecided) > 0 {
 		for _, u := range undecided {
 			fmt.Printf("UNDECIDED property=%s reason=%s\n", P, u)
 		}
-		writeEvidence(P, *tier, seed, eng, coneKeys, results, lemmaResults, nil, pc, time.Since(start).Seconds(), 0, undecided)
+		writeEvidence(P, *tier, seed, eng, coneKeys, results, lemmaResults, nil, pc, time.Since(start).Seconds(), standinViol, undecided)
+		if standinViol > 0 {
+			return 1
+		}
 		return 3
 	}
 	baseTO, floatTO, agree := 20, 150, 1
@@ -355,8 +380,11 @@ func cmdCheck(args []string) int {
 	}
 	sres := solveAll(jobs, timeoutFor, seed, agree, 16)
 	known := loadKnown()
-	violations := 0
+	violations := standinViol
 	rc := 0
+	if standinViol > 0 {
+		rc = 1
+	}
 	for _, r := range sres {
 		switch r.Status {
 		case "discharged", "cover-ok":
